@@ -693,6 +693,34 @@ pub fn run(tier: Tier) -> i32 {
             extra: vec![],
         });
     }
+    // the library's writers and readers on plain streams (writers that take a few bytes per call and
+    // implement only write / flush, a writer that is full, buffered readers of small capacities)
+    {
+        let spectra: Vec<RefArray> = vec![RefArray::from_fn(&[5], |f, _| f as f64 * 1.5 + 0.25), RefArray::from_fn(&[3, 4], |f, _| (f * f) as f64 + 0.125), RefArray::from_fn(&[2, 3, 2], |f, _| f as f64 + 0.5), RefArray::from_fn(&[40, 30], |f, _| (f % 97) as f64 + 0.25)];
+        let mut n = 0u64;
+        for x in &spectra {
+            for precision in [0usize, 6] {
+                n += 1;
+                let scs = crate::subject::scs_from_ref(x);
+                let r = crate::verdict::catch(|| crate::subject::io_through_plain_streams(&scs, precision));
+                let problem = match r {
+                    Ok(p) => p,
+                    Err(p) => Some(format!("panic: {p}")),
+                };
+                if let Some(why) = problem {
+                    rep.violation("C07|lib|plain-streams".to_string(), format!("spectrum of shape {:?} at precision {precision}: {why}", x.shape), J::obj([("kind", J::s("plain-streams")), ("shape", J::usizes(&x.shape))]));
+                }
+            }
+        }
+        rep.part(Part {
+            name: "lib: writers and readers on plain streams".into(),
+            evaluations: n,
+            nontrivial: n,
+            note: "each spectrum in text and npy through writers accepting 1 / 7 / 64 bytes per call (only write and flush implemented): the bytes a Vec receives; into a writer that is full (Ok(0)) after 0, 1, half, all but one byte: not a success; the npy bytes read back through buffered readers of capacity 1, 3, 7, 8, 12, 20, 100, 127, 129".into(),
+            exhaustive: true,
+            extra: vec![],
+        });
+    }
     // size ladder
     let mut ladder: Vec<Vec<usize>> = vec![
         vec![600], vec![30, 40], vec![2, 3, 500], vec![8000], vec![20, 20, 20], vec![100, 100], vec![70000], vec![150000], vec![300, 500],
